@@ -31,5 +31,9 @@ extern MPT_INTERFACE(metatype) *_mpt_geninfo_clone(const void *info)
 		errno = EINVAL;
 		return 0;
 	}
+	/* stored data ends with the terminator added on assignment */
+	if (vec.iov_len) {
+		--vec.iov_len;
+	}
 	return mpt_meta_new(&val);
 }
